@@ -145,6 +145,16 @@ def _repo_method(v, name):
     return None
 
 
+class _MathModule(PyStub):
+    """the math module bound to another name (import math as _m)"""
+
+    def __getattr__(self, k):
+        import math as _math_
+        if k.startswith('__') or not hasattr(_math_, k):
+            raise AttributeError(k)
+        return getattr(_math_, k)
+
+
 class _ClsSuper(PyStub):
     """super() inside __init_subclass__ / a class method whose bases define nothing of that name: object's hooks"""
 
@@ -2634,10 +2644,32 @@ def run_block(stmts, env, funcs=None, limit=10000):
             for al in s.names:
                 if al.name in _PLUMBING:
                     env[al.asname or al.name] = pure_module(al.name)
+                elif al.name == 'math' and al.asname:
+                    env[al.asname] = _MathModule()
+                elif al.asname and funcs and '__name__' in funcs:
+                    try:
+                        env[al.asname] = funcs['__name__'](al.asname)          # import tracklib.x.y as z, inside a function
+                    except Unsupported:
+                        pass
         elif isinstance(s, ast.ImportFrom):
             if s.module in _PLUMBING and s.level == 0:
                 for al in s.names:
                     env[al.asname or al.name] = getattr(pure_module(s.module), al.name)
+            elif s.module == 'math' and s.level == 0:
+                import math as _math_
+                for al in s.names:
+                    if hasattr(_math_, al.name):
+                        env[al.asname or al.name] = getattr(_math_, al.name)
+            elif funcs and '__name__' in funcs:
+                for al in s.names:
+                    if al.asname and al.asname != al.name:
+                        try:
+                            env[al.asname] = funcs['__name__'](al.asname)          # from ..x import helper as _h, inside a function
+                        except Unsupported:
+                            try:
+                                env[al.asname] = funcs['__name__'](al.name)
+                            except Unsupported:
+                                pass
         elif isinstance(s, ast.AnnAssign) and s.value is not None:
             _bind(s.target, ev(s.value, env, funcs), env, funcs)
         elif isinstance(s, ast.AnnAssign):
